@@ -97,7 +97,7 @@ func BenchLine(t *rapid.T) string {
 	case 4:
 		return "Benchmark" + name + " 10 5 ns/op 7" // odd
 	case 5:
-		return "Benchmark" + name + " 10 " + pick(t, []string{"x", "1e400", "1_0", "--1", "1e", "0x", "1.2.3", "ns/op"}, "badfloat") + " ns/op"
+		return "Benchmark" + name + " 10 " + pick(t, []string{"x", "1e400", "1_0", "--1", "1e", "0x", "1.2.3", "ns/op", "1:30", "3:2", ":", "1:", "12/", "1;2", "1 :2", "5_", "0_", "1e5_", "٣", "1,5"}, "badfloat") + " ns/op"
 	case 6:
 		return "Benchmark" + name + " 10" // no measurements
 	}
@@ -105,7 +105,7 @@ func BenchLine(t *rapid.T) string {
 	iters := strconv.Itoa(rapid.IntRange(0, 100000).Draw(t, "iters"))
 	if vcase.OneIn(t, 12, "longiters") {
 		// counts of 19 and more characters leave the integer parser's fast path
-		iters = pick(t, []string{"0000000000000000000100", "1000000000000000000", "9223372036854775807", "9223372036854775808", "0000000000000000000", "000000000000000000000000000000007", "1_000_000_000_000_000_000", "00000000000000000001e3", "999999999999999999", "+000000000000000000012", "5000000000000000000", "9223372036854775806", "-100000000000000000", "-9223372036854775808", "9999999999999999999", "-", "+"}, "longit")
+		iters = pick(t, []string{"0000000000000000000100", "1000000000000000000", "9223372036854775807", "9223372036854775808", "0000000000000000000", "000000000000000000000000000000007", "1_000_000_000_000_000_000", "00000000000000000001e3", "999999999999999999", "+000000000000000000012", "5000000000000000000", "9223372036854775806", "-100000000000000000", "-9223372036854775808", "9999999999999999999", "-", "+", "18446744073709551615", "18446744073709551616", "18446744073709551620", "18446744073709551625", "-18446744073709551629", "184467440737095516200"}, "longit")
 	}
 	sb.WriteString("Benchmark" + name + sep(t) + iters)
 	nm := rapid.IntRange(1, 4).Draw(t, "nmeas")
